@@ -113,12 +113,14 @@ OnEncode(ev) ==
              /\ viol' = viol \cup v
      /\ UNCHANGED hdr
 
+\* ev.bid = 1: this consumer has refused an earlier batch of the stream (its readers are stuck on that
+\* refusal); it must still refuse recognisably and never panic, but is no longer compared with the others
 OnLadder(ev) ==
-  /\ ladder' = Append(ladder, ev)
+  /\ ladder' = IF ev.bid = 1 /\ ev.oc = "ok" THEN ladder ELSE Append(ladder, ev)
   /\ viol' = viol
        \cup If(ev.oc = "panic", V("C14", "PanicUnderMemoryLimit", ev))
        \cup If(ev.b > ev.a, V("C14", "ReportedInUseExceedsLimit", ev))
-       \cup If(ev.oc # "ok" /\ \E j \in DOMAIN ladder : ladder[j].oc = "ok" /\ ladder[j].a <= ev.a,
+       \cup If(ev.bid = 0 /\ ev.oc # "ok" /\ \E j \in DOMAIN ladder : ladder[j].bid = 0 /\ ladder[j].oc = "ok" /\ ladder[j].a <= ev.a,
                V("C14", "RaisingLimitRefusesDecodableBatch", ev))
   /\ UNCHANGED <<hdr, nextBid, sidType, sidSchema, live, retired, opened, lastIn, lastEnc>>
 
@@ -137,10 +139,10 @@ OnDecode(ev) ==
                    Vs(RTProps, "NotEquivalent", ev))
            \cup If(ev.oc = "ok" /\ faulted /\ ev.a = 1 /\ ev.n < ev.b, V("C07", "SuccessWhileDiscardingMainRecord", ev))
            \cup If(ev.oc = "ok" /\ ~faulted /\ healthy /\
-                   \E j \in DOMAIN ladder : ladder[j].oc = "error" /\ ladder[j].flag = 0,
+                   \E j \in DOMAIN ladder : ladder[j].oc = "error" /\ ladder[j].flag = 0 /\ ladder[j].bid = 0,
                    V("C14", "RefusalNotRecognisableAsMemoryLimit", ev))
            \cup If(ev.oc = "ok" /\ ~faulted /\ healthy /\
-                   \E j \in DOMAIN ladder : ladder[j].oc = "ok" /\ ~SameAs(ladder[j].out, ladder[j].n),
+                   \E j \in DOMAIN ladder : ladder[j].oc = "ok" /\ ladder[j].bid = 0 /\ ~SameAs(ladder[j].out, ladder[j].n),
                    V("C14", "LimitChangesDecodedTelemetry", ev))
   IN /\ viol' = viol \cup v
      /\ UNCHANGED <<hdr, nextBid, sidType, sidSchema, live, retired, opened, lastIn, lastEnc, ladder>>
